@@ -111,6 +111,8 @@ def c06(repo, rep):
     C.r16(repo, rep, [n for n in analytic if n not in O.NOTE_ONLY])
     X.r16w(repo, rep, ["analytic"])
     X.truthy_rule(repo, rep, ["analytic"])
+    X.converted_before_use(repo, rep)
+    X.pure_ic_rule(repo, rep)
 
 
 def c09(repo, rep):
@@ -222,6 +224,7 @@ def c14(repo, rep):
         M.r10(repo, rep)
     with rep.keep("R4o"):
         O.r4(repo, rep)                     # a layout that follows dict order on one side only depends on insertion order
+    X.labels_not_in_numpy(repo, rep)
 
 
 def c15(repo, rep):
@@ -254,11 +257,13 @@ def c18(repo, rep):
     S.r7c(repo, rep)
     M.full_data_handoff(repo, rep)
     effects.r5(repo, rep, modules=("simulation",))   # "identical output on repeated calls": a call must not change its arguments
+    X.state_rule(repo, rep)
 
 
 def c19(repo, rep):
     effects.r5(repo, rep)
     effects.r5d(repo, rep)
+    X.state_rule(repo, rep)
 
 
 def c20(repo, rep):
